@@ -218,7 +218,7 @@ func VerifJSIndexKey(n int) {
 	}
 	src := append(append([]byte("x=a[\""), k...), "\"];"...)
 	w := &vWriter{}
-	err := (&Minifier{}).Minify(nil, w, &vReader{b: append([]byte(nil), src...)}, nil)
+	err := (&Minifier{Precision: vChoice("prec", 4)}).Minify(nil, w, &vReader{b: append([]byte(nil), src...)}, nil) // a key is not a number: Precision does not apply
 	vReach("after-call")
 	vOutput("out", w.buf)
 	vAssert(err == nil, "accepted")
